@@ -1,5 +1,5 @@
 """C13 - answers never depend on what was asked before (caches are invisible)."""
-from ..rules import memo
+from ..rules import memo, mutation
 
 DECIDES = ("C13: memo-key completeness and wrapper transparency of the three decorators, what may be memoised "
            "(no generator, no data-file-system effect), no state on the read path outside the memo decorators.")
@@ -12,4 +12,5 @@ def rules(ctx, tier):
         lambda: memo.rule_wrap(ctx),
         lambda: memo.rule_purememo(ctx),
         lambda: memo.rule_nostate(ctx),
+        lambda: mutation.rule_mut(ctx),
     ]
